@@ -207,4 +207,9 @@ func runC18(c *eng.Ctx) {
 			"the move starts only after a test relating the target directory to the source path (target inside source is refused)")
 		c.ErrChecked("ERR-rename", "move", fn, moves, "a failed move is reported and rolled back")
 	}
+
+	// no error of a callee is dropped while an entry is updated, deleted or moved
+	errAll(c, "ERR-namespace", "weed/filer", "an error of a callee on the entry update / delete path reaches the caller", "(*Filer).UpdateEntry", "(*Filer).doDeleteEntryMetaAndData")
+	errAll(c, "ERR-namespace", "weed/server", "an error of a callee while moving entries reaches the caller (and rolls the transaction back)", "(*FilerServer).moveEntry", "(*FilerServer).moveFolderSubEntries", "(*FilerServer).moveSelfEntry")
+	c.Expect("ERR-namespace", 9)
 }
